@@ -604,6 +604,9 @@ static std::vector<Input> inputs14() {
     S(s);
   const char* B1 = "https://example.com/x/y?bq#bf";
   for (const char* s : {"/a/b", "b", "a/b", "?q=1", "#frag", "../b", "//a.com/", "", "http:a", "https://b.com/", "\\a\\b"}) S(s, B1);
+  // relative references that inherit components (query, path, fragment-less) from a base whose components match menu literals
+  const char* B2 = "https://example.com/a/b?q=1#frag";
+  for (const char* s : {"", "#", "#top", "#frag", "?q=1", "?", "b", "./b?q=1"}) S(s, B2);
   S("https://example.com/a", "not a base");
   S("a", "data:text/plain,x");
   S("#frag", "data:text/plain,x");
